@@ -132,10 +132,15 @@ impl GLWECompressed<Vec<u8>> {
 /// Deserializes the metadata (k, base2k, rank, seed) followed by the body data.
 impl<D: DataMut> ReaderFrom for GLWECompressed<D> {
     fn read_from<R: std::io::Read>(&mut self, reader: &mut R) -> std::io::Result<()> {
-        self.base2k = Base2K(reader.read_u32::<LittleEndian>()?);
-        self.rank = Rank(reader.read_u32::<LittleEndian>()?);
-        reader.read_exact(&mut self.seed)?;
-        self.data.read_from(reader)
+        let base2k = Base2K(reader.read_u32::<LittleEndian>()?);
+        let rank = Rank(reader.read_u32::<LittleEndian>()?);
+        let mut seed = [0u8; 32];
+        reader.read_exact(&mut seed)?;
+        self.data.read_from(reader)?;
+        self.base2k = base2k;
+        self.rank = rank;
+        self.seed = seed;
+        Ok(())
     }
 }
 
